@@ -191,9 +191,15 @@ def setup_task_paths(paths_in, paths_out, allowed_input_suffixes):
     for ii, po in enumerate(paths_out):
         if po.suffix != ".rtdc":
             paths_out[ii] = po.with_name(po.name + ".rtdc")
-    [po.unlink() for po in paths_out if po.exists()]
-
     paths_temp = [po.with_suffix(".rtdc~") for po in paths_out]
+
+    # Never remove or overwrite an input file
+    paths_in_res = [pi.resolve() for pi in paths_in]
+    for pp in paths_out + paths_temp:
+        if pp.resolve() in paths_in_res:
+            raise ValueError(f"Output path '{pp}' is also an input path!")
+
+    [po.unlink() for po in paths_out if po.exists()]
     [pt.unlink() for pt in paths_temp if pt.exists()]
 
     # convert lists back to paths
